@@ -3,6 +3,7 @@ package wsim
 import (
 	"bytes"
 	"fmt"
+	"strings"
 
 	"wsim/wsframe"
 )
@@ -26,7 +27,7 @@ type pairOpts struct {
 
 // genPair draws a fault-free pair scenario.
 func genPair(r *PRNG, tier, prop string, o pairOpts) *Scenario {
-	big := tier == "thorough" && r.Chance(1, 5)
+	big := r.Chance(1, 12) || (tier == "thorough" && r.Chance(1, 4))
 	scn := &Scenario{Prop: prop, Class: "pair-faultfree", Seed: r.Uint64() >> 1, Sched: genSched(r)}
 	slow := scn.Sched.ReadMode == "one" || scn.Sched.ReadMode == "small"
 	capAB, capBA := genCap(r), genCap(r)
@@ -318,8 +319,39 @@ func checkTap(run *Run, prop string, e *RealEnd, peer *RealEnd, strictComplete b
 	if strictComplete && tv.Open != nil {
 		run.fail(prop, "unfinished-message", "open", "%s: the stream ends inside a fragmented message although every writer was closed", who)
 	}
+	// reach probes (observable facts about this tap)
+	for i, f := range tv.Frames {
+		switch f.LenBytes {
+		case 2:
+			run.Stats.Probes[pLen16]++
+		case 8:
+			run.Stats.Probes[pLen64]++
+		}
+		if f.IsControl() && len(f.Payload) == 125 {
+			run.Stats.Probes[pCtl125]++
+		}
+		if !f.IsControl() && len(f.Payload) == 0 && !(f.Fin && f.Opcode != 0) {
+			run.Stats.Probes[pEmptyFragment]++
+		}
+		if f.IsControl() && i > 0 && i+1 < len(tv.Frames) && !tv.Frames[i-1].Fin && !tv.Frames[i-1].IsControl() {
+			run.Stats.Probes[pControlBetweenFragments]++
+		}
+		if e.IsServer && !f.IsControl() && len(f.Payload) > 2*(effW(e.Cfg.WriteBuf)+14) {
+			run.Stats.Probes[pServerDirectWrite]++
+		}
+	}
+	for _, it := range tv.Items {
+		if it.Compressed {
+			run.Stats.Probes[pCompressedMsg]++
+		}
+	}
 	// data messages vs sent log
 	sent, _, _ := sentLog(findTask(e, "writer"))
+	for _, m := range sent {
+		if strings.Contains(m.Note, "implicit") {
+			run.Stats.Probes[pImplicitClose]++
+		}
+	}
 	var data []wsframe.Item
 	var ctls []wsframe.Item
 	for _, it := range tv.Items {
